@@ -12,14 +12,14 @@ use std::io::{BufRead, Write};
 pub struct Provider {
     w: usize,
     auth: bool,
-    fault: String,
+    fault: RefCell<String>,
     table: RefCell<Vec<(Vec<u8>, Vec<u8>)>>,
     pub seen_dek: RefCell<Vec<Vec<u8>>>,
 }
 
 impl Provider {
     pub fn new(w: usize, auth: bool, fault: &str) -> Provider {
-        Provider { w, auth, fault: fault.to_string(), table: RefCell::new(vec![]), seen_dek: RefCell::new(vec![]) }
+        Provider { w, auth, fault: RefCell::new(fault.to_string()), table: RefCell::new(vec![]), seen_dek: RefCell::new(vec![]) }
     }
     fn mask(&self) -> Vec<u8> { interp::sha512(&[b"xor-mask"])[..32].to_vec() }
 }
@@ -27,7 +27,7 @@ impl Provider {
 impl KmsProvider for Provider {
     fn encrypt_dek(&self, dek: &Vec<u8>) -> Result<Vec<u8>, KmsError> {
         self.seen_dek.borrow_mut().push(dek.clone());
-        if self.fault == "enc_err" { return Err(KmsError::OperationFailed("injected".into())); }
+        if *self.fault.borrow() == "enc_err" { return Err(KmsError::OperationFailed("injected".into())); }
         if self.auth {
             let mut h = Vec::new();
             let mut ctr = 0u32;
@@ -40,7 +40,7 @@ impl KmsProvider for Provider {
         }
     }
     fn decrypt_dek(&self, wrapped: &Vec<u8>) -> Result<Vec<u8>, KmsError> {
-        match self.fault.as_str() {
+        match self.fault.borrow().as_str() {
             "err" => return Err(KmsError::OperationFailed("injected".into())),
             "wrongkey" => return Ok(interp::sha512(&[b"another-key"])[..32].to_vec()),
             "wronglen" => return Ok(vec![7u8; 16]),
@@ -106,6 +106,24 @@ fn round(w: usize, p: usize, auth: bool, fault: &str, ops: &[Value], rng: &mut R
     Round { result, bloblen, leak_seed, leak_dek, detail }
 }
 
+/// several decrypt calls on ONE blob in one process while the provider's behaviour changes between the calls
+/// (a decision remembered from an earlier call must not leak into a later one)
+fn sequence_round(w: usize, p: usize, auth: bool, faults: &[&str], rng: &mut Rng, out: &mut dyn Write) -> u64 {
+    let seed = rng.bytes(p);
+    let prov = Provider::new(w, auth, "none");
+    let blob = match guarded(|| EnvelopeEncryption::encrypt_seed(&prov, &seed)) { Ok(Ok(b)) => b, _ => return 0 };
+    let mut n = 0;
+    for f in faults {
+        *prov.fault.borrow_mut() = f.to_string();
+        let dec = guarded(|| EnvelopeEncryption::decrypt_seed(&prov, &blob));
+        let result = match dec { Err(_) => "panic", Ok(Err(_)) => "err", Ok(Ok(pt)) => if pt == seed { "seed" } else { "other" } };
+        writeln!(out, "{}", json!({"ev": "round", "W": w, "P": p, "auth": auth, "fault": f, "ops": [], "result": result, "bloblen": blob.len(),
+            "leak_seed": contains(&blob, &seed), "leak_dek": prov.seen_dek.borrow().iter().any(|d| contains(&blob, d)), "sequence": faults})).unwrap();
+        n += 1;
+    }
+    n
+}
+
 pub fn replay(path: &str, tier: &str) {
     let f = std::fs::File::open(path).expect("open cases");
     let stdout = std::io::stdout();
@@ -157,6 +175,15 @@ pub fn record(seed: u64, tier: &str, out_path: &str) {
     let n = if tier == "thorough" { 12_000 } else { 2_500 };
     let mut events = 0u64;
     for k in 0..n {
+        if k % 12 == 5 {
+            let auth = rng.chance(1, 2);
+            let w = if auth { *rng.pick(&[16usize, 32, 48, 200]) } else { 32 };
+            let seqs: [&[&str]; 5] = [&["none", "err", "none"], &["none", "wrongkey", "none"], &["wrongkey", "none"], &["none", "wronglen"], &["err", "none", "none"]];
+            let pick = seqs[(k / 12) % seqs.len()];
+            let p = rng.range(32, 64) as usize;
+            events += sequence_round(w, p, auth, pick, &mut rng, &mut out);
+            continue;
+        }
         let auth = rng.chance(2, 3);
         let w = if !auth { 32 } else { match rng.below(6) { 0 => 16, 1 => 1024, 2 => 32, 3 => 255 + rng.below(3) as usize, _ => rng.range(16, 1024) as usize } };
         let p = rng.range(32, 64) as usize;
